@@ -1,1 +1,38 @@
-fn main() {}
+//! C16 — The chain is tamper-evident; commits are atomic and deterministic.
+//!
+//! Parts:
+//!  * `seq`     begin / add-operation / delta / commit / rollback / append_block sequences over up to
+//!              three open workspaces on one `TensorChain` against a model of store and chain.
+//!  * `tamper`  a chain built through the API, then one rewrite of a stored block record; `verify()`
+//!              (and the block-level verification) must fail, and must pass before the rewrite.
+//!  * `conc`    2–4 scripted threads committing workspaces under the deterministic scheduler with the
+//!              yield points inside `TensorChain::commit`.
+//!  * `replica` one block sequence applied to two fresh `TensorStateMachine`s.
+
+mod conc;
+mod model;
+mod replica;
+mod seq;
+mod sut;
+mod tamper;
+
+use nv_engine::{main_for, PropDef, PropPart};
+
+fn main() {
+    main_for(PropDef {
+        id: "C16",
+        level: "exploration",
+        rule: "seq: non-trivial = a successful non-empty commit of a workspace whose written keys intersect the keys committed by another workspace after this one was begun.",
+        assumptions: vec![
+            "generated transactions use the key alphabet k0..k4 / emb:k* / node:n* / edge:n* / table:t*; keys of the chain's own bookkeeping (chain:*, node:<id>, edge:<id>, _graph_idx:*) and _cache:* are never written by a generated transaction",
+            "auto-merge runs with a one-hour merge window so that candidate selection does not depend on the wall clock",
+        ],
+        parts: vec![
+            PropPart::new("seq", 300, 10_000, seq::strategy, seq::check).boxed(),
+            PropPart::new("tamper", 300, 20_000, tamper::strategy, tamper::check).boxed(),
+            PropPart::new("conc", 200, 10_000, conc::strategy, conc::check).boxed(),
+            PropPart::new("replica", 100, 5_000, replica::strategy, replica::check).boxed(),
+        ],
+        children: vec![],
+    });
+}
